@@ -146,8 +146,10 @@ mod h {
     }
 
     /// The schema name does not depend on the type parameter.
+    // unwind 160: an implementation that derives the name from `type_name::<Self>()` walks a string of
+    // up to ~150 bytes; the bound must cover it so that a wrong name is REPORTED, not cut off
     #[kani::proof]
-    #[kani::unwind(8)]
+    #[kani::unwind(160)]
     fn schema_name_same() {
         let a = <Remote<'static, Ct> as JsonSchema>::schema_name();
         let b = <Remote<'static, dyn Ifa<Error = CtErr>> as JsonSchema>::schema_name();
@@ -158,4 +160,31 @@ mod h {
     }
 
     // @PLAYBACK h@
+}
+
+/// Input-free fact, evaluated natively by the driver (`native_facts` in harnesses.json): the schema
+/// name of a handle is `Remote` whatever the type parameter (plain contract, contract of another
+/// corpus item, `dyn Interface<Error = ..>`, unit).
+#[cfg(test)]
+mod native {
+    use crate::basic::ct::Ct;
+    use crate::basic::ifa::Ifa;
+    use crate::basic::CtErr;
+    use crate::replies::rp::Rp;
+    use sylvia::schemars::JsonSchema;
+    use sylvia::types::Remote;
+
+    #[test]
+    fn schema_name_native() {
+        let names = [
+            <Remote<'static, Ct> as JsonSchema>::schema_name(),
+            <Remote<'static, Rp> as JsonSchema>::schema_name(),
+            <Remote<'static, dyn Ifa<Error = CtErr>> as JsonSchema>::schema_name(),
+            <Remote<'static, Option<Vec<Ct>>> as JsonSchema>::schema_name(),
+            <Remote<'static, ()> as JsonSchema>::schema_name(),
+        ];
+        for n in &names {
+            assert_eq!(n, "Remote", "schema name must not depend on the type parameter");
+        }
+    }
 }
